@@ -3,6 +3,7 @@ import NurbsVerif.Lemmas.Grid
 import NurbsVerif.Lemmas.AssemblePoint
 import NurbsVerif.Lemmas.AssembleWF
 import NurbsVerif.Lemmas.SpanREval
+import NurbsVerif.Lemmas.SpanRGrid
 
 /-!
 # C01  Evaluated points equal the B-spline / NURBS definition
@@ -11,6 +12,9 @@ The model functions (`Geomdl.curvePointAt`, `surfacePointAt`, `project`, `linspa
 `surfaceGrid`, `volumeGrid`, `curveDers`) are the ones
 the correspondence check runs against `Curve/Surface/Volume.evaluate_single / evaluate_list / evalpts /
 derivatives(order=0)`.  `cdb` is the Cox–de Boor recursion (The NURBS Book Eq. 2.5, 0/0 := 0).
+The same entry points through the REPAIRED span search (F-01b; knot vectors with an empty last domain span included):
+`curvePointR`, `surfacePointR`, `volumePointR` (`Model/SpanR.lean`), `curveGridR`, `surfaceGridR`, `volumeGridR`,
+`curveDersR` (`Model/SpanRGrid.lean`) – last two sections of this file.
 -/
 namespace C01
 open Geomdl Blossom Finset
@@ -549,5 +553,274 @@ example : DomOk 2 (fnOf ([0,0,1,2,4,4,5,5] : List ℚ)) ([[0,0],[1,1],[2,0],[3,1
     (4:ℚ) ≤ fnOf ([0,0,1,2,4,4,5,5] : List ℚ) ([[0,0],[1,1],[2,0],[3,1],[4,0]] : List (List ℚ)).length :=
   ⟨⟨mono_of_pairwise _ (by decide +kernel), by decide, by decide +kernel⟩,
    by intro pt hpt; simp at hpt; rcases hpt with h | h | h | h | h <;> simp [h], by decide +kernel, by decide +kernel⟩
+
+/-! ## `evaluate_list`, the sampled grids and the zeroth derivative through the REPAIRED span search
+
+`curveGridR` / `surfaceGridR` / `volumeGridR` / `curveDersR` (`Model/SpanRGrid.lean`) are `curveGrid` / `surfaceGrid` /
+`volumeGrid` / `curveDers` with `findSpanLinear` replaced by `findSpanLinearR` (the repaired `find_span_linear`), i.e. what
+`evaluate_list`, `evaluate` (→ `evalpts`) and `derivatives` run after the F-01b repair.  The correspondence check compares
+them with the repaired code on ordinary shapes and on shapes with an EMPTY last domain span, where every sampled grid
+contains the domain end `U_n` (ops `cgridr`, `sgridr`, `vgridr`, `clistr`, `cdersr`). -/
+
+/-- **Parameter list / curve grid, repaired search**: `evaluate_list(params)` returns one point per parameter and, at
+    position `i`, the point `evaluate_single` (repaired search: `curvePointR`) returns for the `i`-th parameter.
+    (Unfolding lemma: the model IS the `map` of the single-point evaluation; what ties it to the code is the correspondence
+    check.) -/
+theorem curve_list_repaired_eq_single (rat : Bool) (p : ℕ) (U : ℕ → K) (P : List (List K)) (ks : List K) (i : ℕ)
+    (hi : i < ks.length) :
+    (curveGridR rat p U P ks).length = ks.length ∧
+    (curveGridR rat p U P ks).getD i [] = projIf rat (curvePointR p U P (ks.getD i 0)) :=
+  ⟨curveGridR_length rat p U P ks, curveGridR_getD rat p U P ks i hi⟩
+
+/-- **Surface grid, repaired search: size and ordering** – `|us| · |vs|` points, flat index `i · |vs| + j` (u slowest, v
+    fastest) holds the R evaluation at `(us[i], vs[j])`.  (Unfolding lemma, as `surface_grid_index`.) -/
+theorem surface_grid_repaired_index (rat : Bool) (pu pv : ℕ) (Uu Uv : ℕ → K) (su sv : ℕ) (P : List (List K))
+    (kus kvs : List K) (i j : ℕ) (hi : i < kus.length) (hj : j < kvs.length) :
+    (surfaceGridR rat pu pv Uu Uv su sv P kus kvs).length = kus.length * kvs.length ∧
+    (surfaceGridR rat pu pv Uu Uv su sv P kus kvs).getD (i * kvs.length + j) []
+      = projIf rat (surfacePointR pu pv Uu Uv su sv P (kus.getD i 0) (kvs.getD j 0)) :=
+  ⟨surfaceGridR_length rat pu pv Uu Uv su sv P kus kvs, surfaceGridR_getD rat pu pv Uu Uv su sv P kus kvs i j hi hj⟩
+
+/-- **Volume grid, repaired search: size and ordering** (u slowest, then v, w fastest).  (Unfolding lemma.) -/
+theorem volume_grid_repaired_index (rat : Bool) (pu pv pw : ℕ) (Uu Uv Uw : ℕ → K) (su sv sw : ℕ) (P : List (List K))
+    (kus kvs kws : List K) (i j k : ℕ) (hi : i < kus.length) (hj : j < kvs.length) (hk : k < kws.length) :
+    (volumeGridR rat pu pv pw Uu Uv Uw su sv sw P kus kvs kws).length = kus.length * (kvs.length * kws.length) ∧
+    (volumeGridR rat pu pv pw Uu Uv Uw su sv sw P kus kvs kws).getD (i * (kvs.length * kws.length) + (j * kws.length + k)) []
+      = projIf rat (volumePointR pu pv pw Uu Uv Uw su sv sw P (kus.getD i 0) (kvs.getD j 0) (kws.getD k 0)) :=
+  ⟨volumeGridR_length rat pu pv pw Uu Uv Uw su sv sw P kus kvs kws,
+   volumeGridR_getD rat pu pv pw Uu Uv Uw su sv sw P kus kvs kws i j k hi hj hk⟩
+
+/-- **With a non-empty last span the R grids ARE the grids of the theorems above** (`KnotsOk` per direction, every
+    parameter of the lists in the closed domain – true for the `linspace` lists from `U_p` to `U_n`,
+    `sampled_params_in_domain`): `curve_list_eq_single`, `surface_grid_index`, `volume_grid_index`, `surface_grid_corners`
+    are statements about the repaired code. -/
+theorem grid_repaired_eq_grid (rat : Bool) (pu pv pw : ℕ) (Uu Uv Uw : ℕ → K) (su sv sw : ℕ) (P : List (List K))
+    (kus kvs kws : List K) (hUu : KnotsOk pu Uu su) (hUv : KnotsOk pv Uv sv) (hUw : KnotsOk pw Uw sw)
+    (hkus : ∀ u ∈ kus, Uu pu ≤ u ∧ u ≤ Uu su) (hkvs : ∀ v ∈ kvs, Uv pv ≤ v ∧ v ≤ Uv sv)
+    (hkws : ∀ w ∈ kws, Uw pw ≤ w ∧ w ≤ Uw sw) :
+    (su = P.length → curveGridR rat pu Uu P kus = curveGrid rat pu Uu P kus) ∧
+    surfaceGridR rat pu pv Uu Uv su sv P kus kvs = surfaceGrid rat pu pv Uu Uv su sv P kus kvs ∧
+    volumeGridR rat pu pv pw Uu Uv Uw su sv sw P kus kvs kws = volumeGrid rat pu pv pw Uu Uv Uw su sv sw P kus kvs kws :=
+  ⟨fun h => curveGridR_eq_curveGrid rat pu Uu P kus (h ▸ hUu) (fun u hu => by rw [← h]; exact hkus u hu),
+   surfaceGridR_eq_surfaceGrid rat pu pv Uu Uv su sv P kus kvs hUu hUv hkus hkvs,
+   volumeGridR_eq_volumeGrid rat pu pv pw Uu Uv Uw su sv sw P kus kvs kws hUu hUv hUw hkus hkvs hkws⟩
+
+/-- **The sampled parameters lie in the closed interval they sample** (`n ≥ 2` samples of `[a, b]`, `a < b`): with
+    `a = U_p`, `b = U_n` the hypothesis on the parameter lists of `grid_repaired_eq_grid` and of the entry theorems below. -/
+theorem sampled_params_in_domain (a b : K) (n : ℕ) (hab : a < b) (hn : 2 ≤ n) (u : K) (hu : u ∈ linspaceCore a b n) :
+    a ≤ u ∧ u ≤ b :=
+  linspaceCore_mem_Icc a b n hab hn u hu
+
+/-- **Every entry of the curve list / grid, EVERY valid knot vector** (`DomOk`: sorted, `n ≥ p + 1`, `U_p < U_n`; the last
+    domain span may be empty), parameter `ks[i]` in the closed domain: the entry is the sum over ALL control points of the
+    Cox–de Boor recursion of the (non-empty) span the repaired search finds at `ks[i]` times the control point – the
+    Cox–de Boor sum itself (`cdb`) for `ks[i] < U_n`, the recursion of the LAST NON-EMPTY span (left limit) for
+    `ks[i] = U_n` (`curve_eval_repaired_closed`). -/
+theorem curve_grid_repaired_entry_eq_definition (p d : ℕ) (U : ℕ → K) (P : List (List K)) (hU : DomOk p U P.length)
+    (hP : NetOk d P) (ks : List K) (i : ℕ) (hi : i < ks.length) (j : ℕ) :
+    ((curveGridR false p U P ks).getD i []).getD j 0
+      = ∑ c ∈ range P.length, cdbSpan U (findSpanLinearR p U P.length (ks.getD i 0)) p c (ks.getD i 0) * (ptsGet P c).getD j 0 ∧
+    (U p ≤ ks.getD i 0 → ks.getD i 0 < U P.length →
+      ((curveGridR false p U P ks).getD i []).getD j 0
+        = ∑ c ∈ range P.length, cdb U p c (ks.getD i 0) * (ptsGet P c).getD j 0) := by
+  rw [curveGridR_getD false p U P ks i hi]
+  exact ⟨curvePointR_eq_cdbSpan p U P _ d j hU.pn hP, fun h1 h2 => curvePointR_eq_cdb p U P _ d j hU.mono hU.pn hP h1 h2⟩
+
+/-- **Every entry of the rational curve list / grid, every valid knot vector**: positive weights, `ks[i] ∈ [U_p, U_n]`:
+    the projected entry is (Σ N_c w_c P_c) / (Σ N_c w_c) with the recursion of the span the repaired search finds. -/
+theorem rational_curve_grid_repaired_entry_eq_quotient (p d : ℕ) (U : ℕ → K) (Pw : List (List K))
+    (hU : DomOk p U Pw.length) (hP : NetOk (d+1) Pw) (hwt : ∀ i, i < Pw.length → 0 < (ptsGet Pw i).getD d 0)
+    (ks : List K) (i : ℕ) (hi : i < ks.length) (h1 : U p ≤ ks.getD i 0) (h2 : ks.getD i 0 ≤ U Pw.length)
+    (j : ℕ) (hj : j < d) :
+    ((curveGridR true p U Pw ks).getD i []).getD j 0
+      = (∑ c ∈ range Pw.length, cdbSpan U (findSpanLinearR p U Pw.length (ks.getD i 0)) p c (ks.getD i 0) * (ptsGet Pw c).getD j 0)
+        / (∑ c ∈ range Pw.length, cdbSpan U (findSpanLinearR p U Pw.length (ks.getD i 0)) p c (ks.getD i 0) * (ptsGet Pw c).getD d 0) := by
+  rw [curveGridR_getD true p U Pw ks i hi]
+  exact (curvePointR_rational_eq_cdbSpan p U Pw _ d j hU hP h1 h2 hwt hj).2
+
+/-- **Every entry of the surface grid, every valid knot vectors** (per direction `DomOk`): the entry with flat index
+    `i · |vs| + j` is the tensor-product sum with the recursions of the spans the repaired search finds at `us[i]`, `vs[j]`;
+    the Cox–de Boor tensor sum when both parameters are below their domain ends. -/
+theorem surface_grid_repaired_entry_eq_definition (pu pv d : ℕ) (Uu Uv : ℕ → K) (su sv : ℕ) (P : List (List K))
+    (hUu : DomOk pu Uu su) (hUv : DomOk pv Uv sv) (hlen : P.length = su * sv) (hP : NetOk d P)
+    (kus kvs : List K) (i j : ℕ) (hi : i < kus.length) (hj : j < kvs.length) (c : ℕ) :
+    ((surfaceGridR false pu pv Uu Uv su sv P kus kvs).getD (i * kvs.length + j) []).getD c 0
+      = ∑ a ∈ range su, ∑ b ∈ range sv,
+          cdbSpan Uu (findSpanLinearR pu Uu su (kus.getD i 0)) pu a (kus.getD i 0) *
+            cdbSpan Uv (findSpanLinearR pv Uv sv (kvs.getD j 0)) pv b (kvs.getD j 0) * (ptsGet P (b + sv * a)).getD c 0 ∧
+    (Uu pu ≤ kus.getD i 0 → kus.getD i 0 < Uu su → Uv pv ≤ kvs.getD j 0 → kvs.getD j 0 < Uv sv →
+      ((surfaceGridR false pu pv Uu Uv su sv P kus kvs).getD (i * kvs.length + j) []).getD c 0
+        = ∑ a ∈ range su, ∑ b ∈ range sv,
+            cdb Uu pu a (kus.getD i 0) * cdb Uv pv b (kvs.getD j 0) * (ptsGet P (b + sv * a)).getD c 0) := by
+  rw [surfaceGridR_getD false pu pv Uu Uv su sv P kus kvs i j hi hj]
+  exact surface_eval_repaired_closed pu pv d Uu Uv su sv P hUu hUv hlen hP _ _ c
+
+/-- **Every entry of the rational surface grid, every valid knot vectors**: positive weights, parameters in the closed
+    domain: the projected entry is the quotient of the tensor sums. -/
+theorem rational_surface_grid_repaired_entry_eq_quotient (pu pv d : ℕ) (Uu Uv : ℕ → K) (su sv : ℕ) (Pw : List (List K))
+    (hUu : DomOk pu Uu su) (hUv : DomOk pv Uv sv) (hlen : Pw.length = su * sv) (hP : NetOk (d+1) Pw)
+    (hwt : ∀ i, i < Pw.length → 0 < (ptsGet Pw i).getD d 0)
+    (kus kvs : List K) (i j : ℕ) (hi : i < kus.length) (hj : j < kvs.length)
+    (hu1 : Uu pu ≤ kus.getD i 0) (hu2 : kus.getD i 0 ≤ Uu su) (hv1 : Uv pv ≤ kvs.getD j 0) (hv2 : kvs.getD j 0 ≤ Uv sv)
+    (c : ℕ) (hc : c < d) :
+    ((surfaceGridR true pu pv Uu Uv su sv Pw kus kvs).getD (i * kvs.length + j) []).getD c 0
+      = (∑ a ∈ range su, ∑ b ∈ range sv,
+          cdbSpan Uu (findSpanLinearR pu Uu su (kus.getD i 0)) pu a (kus.getD i 0) *
+            cdbSpan Uv (findSpanLinearR pv Uv sv (kvs.getD j 0)) pv b (kvs.getD j 0) * (ptsGet Pw (b + sv * a)).getD c 0)
+        / (∑ a ∈ range su, ∑ b ∈ range sv,
+          cdbSpan Uu (findSpanLinearR pu Uu su (kus.getD i 0)) pu a (kus.getD i 0) *
+            cdbSpan Uv (findSpanLinearR pv Uv sv (kvs.getD j 0)) pv b (kvs.getD j 0) * (ptsGet Pw (b + sv * a)).getD d 0) := by
+  rw [surfaceGridR_getD true pu pv Uu Uv su sv Pw kus kvs i j hi hj]
+  exact (surfacePointR_rational_eq_cdbSpan pu pv Uu Uv su sv Pw _ _ d c hUu hUv hlen hP hu1 hu2 hv1 hv2 hwt hc).2
+
+/-- **Every entry of the volume grid, every valid knot vectors**: triple tensor sum with the recursions of the spans the
+    repaired search finds at the three parameters of the entry. -/
+theorem volume_grid_repaired_entry_eq_definition (pu pv pw d : ℕ) (Uu Uv Uw : ℕ → K) (su sv sw : ℕ) (P : List (List K))
+    (hUu : DomOk pu Uu su) (hUv : DomOk pv Uv sv) (hUw : DomOk pw Uw sw) (hlen : P.length = su * sv * sw) (hP : NetOk d P)
+    (kus kvs kws : List K) (i j k : ℕ) (hi : i < kus.length) (hj : j < kvs.length) (hk : k < kws.length) (e : ℕ) :
+    ((volumeGridR false pu pv pw Uu Uv Uw su sv sw P kus kvs kws).getD
+        (i * (kvs.length * kws.length) + (j * kws.length + k)) []).getD e 0
+      = ∑ a ∈ range su, ∑ b ∈ range sv, ∑ c ∈ range sw,
+          cdbSpan Uu (findSpanLinearR pu Uu su (kus.getD i 0)) pu a (kus.getD i 0) *
+            cdbSpan Uv (findSpanLinearR pv Uv sv (kvs.getD j 0)) pv b (kvs.getD j 0) *
+            cdbSpan Uw (findSpanLinearR pw Uw sw (kws.getD k 0)) pw c (kws.getD k 0) *
+              (ptsGet P (b + sv * (a + su * c))).getD e 0 := by
+  rw [volumeGridR_getD false pu pv pw Uu Uv Uw su sv sw P kus kvs kws i j k hi hj hk]
+  exact volumePointR_eq_cdbSpan pu pv pw Uu Uv Uw su sv sw P _ _ _ d e hUu.pn hUv.pn hUw.pn hlen hP
+
+/-- **Every entry of the rational volume grid, every valid knot vectors**: positive weights, parameters in the closed
+    domain: quotient of the triple sums. -/
+theorem rational_volume_grid_repaired_entry_eq_quotient (pu pv pw d : ℕ) (Uu Uv Uw : ℕ → K) (su sv sw : ℕ)
+    (Pw : List (List K)) (hUu : DomOk pu Uu su) (hUv : DomOk pv Uv sv) (hUw : DomOk pw Uw sw)
+    (hlen : Pw.length = su * sv * sw) (hP : NetOk (d+1) Pw) (hwt : ∀ i, i < Pw.length → 0 < (ptsGet Pw i).getD d 0)
+    (kus kvs kws : List K) (i j k : ℕ) (hi : i < kus.length) (hj : j < kvs.length) (hk : k < kws.length)
+    (hu1 : Uu pu ≤ kus.getD i 0) (hu2 : kus.getD i 0 ≤ Uu su) (hv1 : Uv pv ≤ kvs.getD j 0) (hv2 : kvs.getD j 0 ≤ Uv sv)
+    (hw1 : Uw pw ≤ kws.getD k 0) (hw2 : kws.getD k 0 ≤ Uw sw) (e : ℕ) (he : e < d) :
+    ((volumeGridR true pu pv pw Uu Uv Uw su sv sw Pw kus kvs kws).getD
+        (i * (kvs.length * kws.length) + (j * kws.length + k)) []).getD e 0
+      = (∑ a ∈ range su, ∑ b ∈ range sv, ∑ c ∈ range sw,
+          cdbSpan Uu (findSpanLinearR pu Uu su (kus.getD i 0)) pu a (kus.getD i 0) *
+            cdbSpan Uv (findSpanLinearR pv Uv sv (kvs.getD j 0)) pv b (kvs.getD j 0) *
+            cdbSpan Uw (findSpanLinearR pw Uw sw (kws.getD k 0)) pw c (kws.getD k 0) *
+              (ptsGet Pw (b + sv * (a + su * c))).getD e 0)
+        / (∑ a ∈ range su, ∑ b ∈ range sv, ∑ c ∈ range sw,
+          cdbSpan Uu (findSpanLinearR pu Uu su (kus.getD i 0)) pu a (kus.getD i 0) *
+            cdbSpan Uv (findSpanLinearR pv Uv sv (kvs.getD j 0)) pv b (kvs.getD j 0) *
+            cdbSpan Uw (findSpanLinearR pw Uw sw (kws.getD k 0)) pw c (kws.getD k 0) *
+              (ptsGet Pw (b + sv * (a + su * c))).getD d 0) := by
+  rw [volumeGridR_getD true pu pv pw Uu Uv Uw su sv sw Pw kus kvs kws i j k hi hj hk]
+  exact (volumePointR_rational_eq_cdbSpan pu pv pw Uu Uv Uw su sv sw Pw _ _ _ d e hUu hUv hUw hlen hP
+    hu1 hu2 hv1 hv2 hw1 hw2 hwt he).2
+
+/-- **The sampled grids (repaired search) start and end exactly on the domain corners**: with the `linspace` parameter
+    lists of `≥ 2` samples per direction, the first grid point is the R evaluation at the start corner and the last one
+    (index `n − 1`, `n_u · n_v − 1`, `n_u · n_v · n_w − 1`) the R evaluation at the end corner – curves, surfaces, volumes. -/
+theorem grid_repaired_corners (rat : Bool) (pu pv pw : ℕ) (Uu Uv Uw : ℕ → K) (su sv sw : ℕ) (P : List (List K))
+    (a b c d e f : K) (nu nv nw : ℕ) (hnu : 2 ≤ nu) (hnv : 2 ≤ nv) (hnw : 2 ≤ nw) :
+    ((curveGridR rat pu Uu P (linspaceCore a b nu)).getD 0 [] = projIf rat (curvePointR pu Uu P a) ∧
+     (curveGridR rat pu Uu P (linspaceCore a b nu)).getD (nu - 1) [] = projIf rat (curvePointR pu Uu P b)) ∧
+    ((surfaceGridR rat pu pv Uu Uv su sv P (linspaceCore a b nu) (linspaceCore c d nv)).getD 0 []
+        = projIf rat (surfacePointR pu pv Uu Uv su sv P a c) ∧
+     (surfaceGridR rat pu pv Uu Uv su sv P (linspaceCore a b nu) (linspaceCore c d nv)).getD (nu * nv - 1) []
+        = projIf rat (surfacePointR pu pv Uu Uv su sv P b d)) ∧
+    ((volumeGridR rat pu pv pw Uu Uv Uw su sv sw P (linspaceCore a b nu) (linspaceCore c d nv) (linspaceCore e f nw)).getD 0 []
+        = projIf rat (volumePointR pu pv pw Uu Uv Uw su sv sw P a c e) ∧
+     (volumeGridR rat pu pv pw Uu Uv Uw su sv sw P (linspaceCore a b nu) (linspaceCore c d nv) (linspaceCore e f nw)).getD
+          (nu * (nv * nw) - 1) []
+        = projIf rat (volumePointR pu pv pw Uu Uv Uw su sv sw P b d f)) :=
+  ⟨curveGridR_ends rat pu Uu P a b nu hnu, surfaceGridR_corners rat pu pv Uu Uv su sv P a b c d nu nv hnu hnv,
+   volumeGridR_corners rat pu pv pw Uu Uv Uw su sv sw P a b c d e f nu nv nw hnu hnv hnw⟩
+
+/-- **The sampled curve grid ends on the LEFT-LIMIT value, every valid knot vector**: the grid over
+    `linspace(U_p, U_n, n)`, `n ≥ 2`, of a curve whose last domain span may be empty: with `κ` the span the repaired search
+    finds at `U_n` – `p ≤ κ < n`, NOT EMPTY, right end `U_n`, every later span of the domain empty – the LAST grid point is
+    the sum over all control points of the Cox–de Boor recursion of span `κ` at `U_n` (for a clamped end: the last control
+    point); the FIRST grid point is the Cox–de Boor sum at `U_p`. -/
+theorem curve_grid_repaired_ends_on_left_limit (p d : ℕ) (U : ℕ → K) (P : List (List K)) (hU : DomOk p U P.length)
+    (hP : NetOk d P) (n : ℕ) (hn : 2 ≤ n) (j : ℕ) :
+    p ≤ findSpanLinearR p U P.length (U P.length) ∧ findSpanLinearR p U P.length (U P.length) < P.length ∧
+    U (findSpanLinearR p U P.length (U P.length)) < U (findSpanLinearR p U P.length (U P.length) + 1) ∧
+    U (findSpanLinearR p U P.length (U P.length) + 1) = U P.length ∧
+    (∀ i, findSpanLinearR p U P.length (U P.length) < i → i < P.length → U i = U (i + 1)) ∧
+    ((curveGridR false p U P (linspaceCore (U p) (U P.length) n)).getD (n - 1) []).getD j 0
+      = ∑ c ∈ range P.length, cdbSpan U (findSpanLinearR p U P.length (U P.length)) p c (U P.length) * (ptsGet P c).getD j 0 ∧
+    ((curveGridR false p U P (linspaceCore (U p) (U P.length) n)).getD 0 []).getD j 0
+      = ∑ c ∈ range P.length, cdb U p c (U p) * (ptsGet P c).getD j 0 := by
+  obtain ⟨b1, b2, b3, b4, b5⟩ := findSpanLinearR_right_end p U P.length hU.pn hU.mono hU.dom
+  obtain ⟨e0, e1⟩ := curveGridR_ends false p U P (U p) (U P.length) n hn
+  refine ⟨b1, b2, b3, b4, b5, ?_, ?_⟩
+  · rw [e1]; exact curvePointR_eq_cdbSpan p U P _ d j hU.pn hP
+  · rw [e0]; exact curvePointR_eq_cdb p U P _ d j hU.mono hU.pn hP (le_refl _) hU.dom
+
+/-- **The sampled surface grid ends on the LEFT-LIMIT value, every valid knot vectors**: the last point of the grid over
+    `linspace(U_p, U_n, ·)` per direction (`≥ 2` samples each) is the tensor sum with the recursions of the LAST NON-EMPTY
+    spans `κ_u`, `κ_v` of the two domains (non-empty, right ends `U_n`), evaluated at the domain ends; the first point is
+    the Cox–de Boor tensor sum at the start corner.  (Volumes: `grid_repaired_corners` + `volume_eval_repaired_closed` +
+    `C03.findSpanLinearR_spec` per direction.) -/
+theorem surface_grid_repaired_ends_on_left_limit (pu pv d : ℕ) (Uu Uv : ℕ → K) (su sv : ℕ) (P : List (List K))
+    (hUu : DomOk pu Uu su) (hUv : DomOk pv Uv sv) (hlen : P.length = su * sv) (hP : NetOk d P)
+    (nu nv : ℕ) (hnu : 2 ≤ nu) (hnv : 2 ≤ nv) (j : ℕ) :
+    (Uu (findSpanLinearR pu Uu su (Uu su)) < Uu (findSpanLinearR pu Uu su (Uu su) + 1) ∧
+      Uu (findSpanLinearR pu Uu su (Uu su) + 1) = Uu su) ∧
+    (Uv (findSpanLinearR pv Uv sv (Uv sv)) < Uv (findSpanLinearR pv Uv sv (Uv sv) + 1) ∧
+      Uv (findSpanLinearR pv Uv sv (Uv sv) + 1) = Uv sv) ∧
+    ((surfaceGridR false pu pv Uu Uv su sv P (linspaceCore (Uu pu) (Uu su) nu) (linspaceCore (Uv pv) (Uv sv) nv)).getD
+        (nu * nv - 1) []).getD j 0
+      = ∑ a ∈ range su, ∑ b ∈ range sv,
+          cdbSpan Uu (findSpanLinearR pu Uu su (Uu su)) pu a (Uu su) * cdbSpan Uv (findSpanLinearR pv Uv sv (Uv sv)) pv b (Uv sv) *
+            (ptsGet P (b + sv * a)).getD j 0 ∧
+    ((surfaceGridR false pu pv Uu Uv su sv P (linspaceCore (Uu pu) (Uu su) nu) (linspaceCore (Uv pv) (Uv sv) nv)).getD
+        0 []).getD j 0
+      = ∑ a ∈ range su, ∑ b ∈ range sv, cdb Uu pu a (Uu pu) * cdb Uv pv b (Uv pv) * (ptsGet P (b + sv * a)).getD j 0 := by
+  obtain ⟨_, _, bu3, bu4, _⟩ := findSpanLinearR_right_end pu Uu su hUu.pn hUu.mono hUu.dom
+  obtain ⟨_, _, bv3, bv4, _⟩ := findSpanLinearR_right_end pv Uv sv hUv.pn hUv.mono hUv.dom
+  obtain ⟨e0, e1⟩ := surfaceGridR_corners false pu pv Uu Uv su sv P (Uu pu) (Uu su) (Uv pv) (Uv sv) nu nv hnu hnv
+  refine ⟨⟨bu3, bu4⟩, ⟨bv3, bv4⟩, ?_, ?_⟩
+  · rw [e1]; exact surfacePointR_eq_cdbSpan pu pv Uu Uv su sv P _ _ d j hUu.pn hUv.pn hlen hP
+  · rw [e0]; exact surfacePointR_eq_cdb pu pv Uu Uv su sv P _ _ d j hUu.mono hUv.mono hUu.pn hUv.pn hlen hP
+      (le_refl _) hUu.dom (le_refl _) hUv.dom
+
+/-- **Zeroth derivative, repaired search**: entry 0 of `derivatives(u, order)` on the span the repaired search finds
+    (`curveDersR`, any requested order) is the point `evaluate_single(u)` returns (`curvePointR`) – same span, same basis
+    functions; every parameter, every knot function with `n ≥ p + 1`. -/
+theorem curve_ders0_repaired_eq_single (p : ℕ) (U : ℕ → K) (P : List (List K)) (u : K) (order : ℕ)
+    (hpn : p + 1 ≤ P.length) :
+    (curveDersR p U P u order).getD 0 [] = curvePointR p U P u :=
+  curveDersR_head p U P u order hpn
+
+/-- **The sampled grid at the end of a domain with an empty last span** (closed witnesses; inputs of
+    `curve_eval_repaired_witness_F01b`).  (1) degree 2, `U = [0,0,1,2,4,4,5,5]`, 5 control points, 4 samples of the domain
+    `[1, 4]`: the R grid ends on `(3, 1)` (the left-limit value at `u = 4`), the grid through the search without step back
+    "ends" on `(0, 0)` (division by zero on the empty span); the other three points agree.  (2) end knot repeated `p + 2`
+    times, 3 samples of `[0, 1]`: the grid ends on the fourth control point `(3, 1)`.  (3) a surface with that u-direction
+    and a linear v-direction, 3 × 2 samples: the last row is evaluated at `u = 4` on span 3.
+    (Closed witness check: a statement about these concrete inputs, decided by evaluation.) -/
+theorem grid_repaired_witness_F01b :
+    curveGridR false 2 (fnOf ([0,0,1,2,4,4,5,5] : List ℚ)) [[0,0],[1,1],[2,0],[3,1],[4,0]] (linspaceCore 1 4 4)
+      = [[1/2, 1/2], [4/3, 2/3], [25/12, 5/12], [3, 1]] ∧
+    curveGrid false 2 (fnOf ([0,0,1,2,4,4,5,5] : List ℚ)) [[0,0],[1,1],[2,0],[3,1],[4,0]] (linspaceCore 1 4 4)
+      = [[1/2, 1/2], [4/3, 2/3], [25/12, 5/12], [0, 0]] ∧
+    curveGridR false 2 (fnOf ([0,0,0,1/2,1,1,1,1] : List ℚ)) [[0,0],[1,1],[2,0],[3,1],[4,0]] (linspaceCore 0 1 3)
+      = [[0, 0], [3/2, 1/2], [3, 1]] ∧
+    surfaceGridR false 2 1 (fnOf ([0,0,1,2,4,4,5,5] : List ℚ)) (fnOf ([0,0,1,1] : List ℚ)) 5 2
+        [[0,0],[1,1],[1,1],[2,2],[2,0],[3,1],[3,1],[4,2],[4,0],[5,1]] (linspaceCore 1 4 3) (linspaceCore 0 1 2)
+      = [[1/2, 1/2], [3/2, 3/2], [27/16, 7/16], [43/16, 23/16], [3, 1], [4, 2]] ∧
+    (curveDersR 2 (fnOf ([0,0,1,2,4,4,5,5] : List ℚ)) [[0,0],[1,1],[2,0],[3,1],[4,0]] 4 1).getD 0 [] = [3, 1] := by
+  decide +kernel
+
+/-- non-vacuity of the hypotheses of the entry / end theorems: the knot vector with an empty last domain span, 5 planar
+    control points, the 4 samples of `[U_2, U_5] = [1, 4]` lie in the closed domain -/
+example : DomOk 2 (fnOf ([0,0,1,2,4,4,5,5] : List ℚ)) ([[0,0],[1,1],[2,0],[3,1],[4,0]] : List (List ℚ)).length ∧
+    NetOk 2 ([[0,0],[1,1],[2,0],[3,1],[4,0]] : List (List ℚ)) ∧
+    (∀ u ∈ linspaceCore (fnOf ([0,0,1,2,4,4,5,5] : List ℚ) 2) (fnOf ([0,0,1,2,4,4,5,5] : List ℚ) 5) 4,
+      fnOf ([0,0,1,2,4,4,5,5] : List ℚ) 2 ≤ u ∧ u ≤ fnOf ([0,0,1,2,4,4,5,5] : List ℚ) 5) :=
+  ⟨⟨mono_of_pairwise _ (by decide +kernel), by decide, by decide +kernel⟩,
+   by intro pt hpt; simp at hpt; rcases hpt with h | h | h | h | h <;> simp [h],
+   fun u hu => sampled_params_in_domain _ _ 4 (by decide +kernel) (by decide) u hu⟩
+
+/-- non-vacuity of `grid_repaired_eq_grid`: a knot vector with non-empty last span and 3 samples of its domain -/
+example : KnotsOk 2 (fnOf ([0,0,0,1/2,1,1,1] : List ℚ)) 4 ∧
+    (∀ u ∈ linspaceCore (0:ℚ) 1 3, fnOf ([0,0,0,1/2,1,1,1] : List ℚ) 2 ≤ u ∧ u ≤ fnOf ([0,0,0,1/2,1,1,1] : List ℚ) 4) :=
+  ⟨⟨mono_of_pairwise _ (by decide +kernel), by decide, by decide +kernel⟩, by decide +kernel⟩
 
 end C01
